@@ -5,6 +5,8 @@
 (*  body{...}: one response through the Compress middleware: label, whether decoding with    *)
 (*      the labelled codec gives the handler's body, length header consistency, whether the  *)
 (*      response had to pass through unchanged, whether the stream terminated.               *)
+(*  wire{...}: the same, read from a real HTTP/1.1 keep-alive connection by a byte-level     *)
+(*      client: framing announced by the head against the bytes that arrive.                  *)
 (*  reqbody{...}: a request body sent with Content-Encoding is delivered decoded.            *)
 (* Permitted follows RFC 7231 5.3.4.                                                         *)
 EXTENDS Integers, Sequences, FiniteSets, TLC
@@ -38,6 +40,15 @@ RefStep(rs, e) ==
             "C13/PassThrough/response-was-re-encoded/" \o e.why),
            "C13/Lossless/decoded-body-differs/" \o e.label),
           "C13/Terminate/body-stream-does-not-end")
+    \* the same response as read from a keep-alive HTTP/1.1 connection by a byte-level client: the framing the head
+    \* announces must delimit exactly the encoded body (no stale length, no body that only a close would end)
+    [] e.ev = "wire" ->
+         E(~e.timed_out /\ e.complete,
+          E(e.framing # "cl" \/ e.cl = e.got,
+           E(e.decoded_ok, rs, "C13/Wire/decoded-body-differs/" \o e.label),
+           "C13/Wire/stale-content-length"),
+          IF e.framing = "cl" THEN "C13/Wire/stale-content-length"
+          ELSE IF e.framing = "close" THEN "C13/Wire/body-not-delimited" ELSE "C13/Wire/body-incomplete")
     [] e.ev = "reqbody" -> E(e.decoded_ok, rs, "C13/Request/decoded-body-differs/" \o e.coding)
     [] e.ev = "Panic" -> Rej("C19/Panic", "")
     [] OTHER -> rs
